@@ -105,6 +105,29 @@ def _perturb(arr, idx, f, tol):
     return delta
 
 
+def _edges_far_apart(ea, eb, tol):
+    """True iff the two edge descriptions differ structurally or in some numeric block by >= 1e3*tol (relative norm)."""
+    if ea["t"] != eb["t"] or ea["ids"] != eb["ids"] or ea.get("fl") != eb.get("fl"):
+        return True
+
+    def arr(x):
+        if x is None:
+            return None
+        return np.array(x["v"] if isinstance(x, dict) else x, dtype=float).reshape(-1)
+
+    for key in ("info", "z", "off"):
+        a, b = arr(ea.get(key)), arr(eb.get(key))
+        if (a is None) != (b is None):
+            return True
+        if a is None:
+            continue
+        if a.shape != b.shape:
+            return True
+        if float(np.linalg.norm(a - b)) >= 1e3 * tol * max(float(np.linalg.norm(a)), float(np.linalg.norm(b)), tol):
+            return True
+    return False
+
+
 def _expect(ctx, level, x, y, tol, want, what):
     for a, b, d in ((x, y, "x.equals(y)"), (y, x, "y.equals(x)")):
         try:
@@ -266,8 +289,9 @@ def check(case, ctx):
         if len(c2["edges"]) < 2:
             return
         i = sel[0] % (len(c2["edges"]) - 1)
-        if c2["edges"][i] == c2["edges"][i + 1]:
-            return
+        if not _edges_far_apart(c2["edges"][i], c2["edges"][i + 1], tol):
+            ctx.event("skipped:swapped-edges-not-far-apart")
+            return  # e.g. noise-free parallel edges: swapping (nearly) identical edges legitimately gives an equal graph
         c2["edges"][i], c2["edges"][i + 1] = c2["edges"][i + 1], c2["edges"][i]
     elif st == "vertex-id":
         old = c2["verts"][sel[0] % len(c2["verts"])]["id"]
